@@ -52,6 +52,34 @@ class LogDisk:
         return outs
 
 
+class scoped_models:
+    """model overrides installed by an obligation are undone when it finishes (obligations run in any order)"""
+
+    def __init__(self, ex):
+        self.ex = ex
+
+    def __enter__(self):
+        M = self.ex.models
+        if M.io_hook is None:
+            IoModel(M)
+        self.saved = dict(M.table)
+        self.dyn = getattr(M, "call_dyn", None)
+        return self
+
+    def __exit__(self, *a):
+        M = self.ex.models
+        M.table.clear()
+        M.table.update(self.saved)
+        if self.dyn is None:
+            if hasattr(M, "call_dyn"):
+                try:
+                    del M.call_dyn
+                except AttributeError:
+                    pass
+        else:
+            M.call_dyn = self.dyn
+
+
 def install_models(ex, disk):
     M = ex.models
     if M.io_hook is None:
@@ -65,13 +93,36 @@ def install_models(ex, disk):
         st.event("io", op="read_dir", outcome="ok", path=("root",))
         return ok(VVec(segs))
 
+    def mk_reader(ex2, st, sid):
+        """a SegmentReader value laid out like the real struct (fields the crate may read directly get
+        symbolic contents); the read cursor is kept on the side"""
+        names = ex2.si.structs.get("SegmentReader") or ["file", "segment_id", "path"]
+        flds = []
+        for nme in names:
+            if nme == "segment_id":
+                flds.append(VInt(sid, "u64"))
+            elif nme in ("file", "path"):
+                flds.append(VOpaque(nme))
+            else:
+                flds.append(ex2.new_int(st, "u64", "reader_" + nme))
+        cur = dict(st.meta.get("cursors", {}))
+        cur[str(sid)] = 0
+        st.meta["cursors"] = cur
+        return VStruct("SegmentReader", flds)
+
+    def reader_sid(ex2, st, rd):
+        names = ex2.si.structs.get("SegmentReader") or ["file", "segment_id", "path"]
+        return rd.fields[names.index("segment_id")].t
+
+    disk.mk_reader, disk.reader_sid = mk_reader, reader_sid
+
     def m_open_reader(ex2, st, fr, c, a, d, r):
-        sid = a[1].t
-        return ok(VStruct("SegmentReader", [VInt(sid, "u64"), VInt(0, "usize")]))
+        return ok(mk_reader(ex2, st, a[1].t))
 
     def m_reader_next(ex2, st, fr, c, a, d, r):
-        rd = st.load(a[0])
-        sid, pos = rd.fields[0].t, z3.simplify(rd.fields[1].t).as_long()
+        rd = deref_all(st, a[0])
+        sid = reader_sid(ex2, st, rd)
+        pos = st.meta["cursors"][str(sid)]
         grp = None
         for gidx, g in enumerate(st.meta["groups"]):
             if not ex2.feasible(st.pc, disk.segs[g[0]] != sid):
@@ -79,7 +130,9 @@ def install_models(ex, disk):
         if grp is None or pos >= len(grp):
             return none()
         i = grp[pos]
-        rd.fields[1] = VInt(pos + 1, "usize")
+        cur = dict(st.meta["cursors"])
+        cur[str(sid)] = pos + 1
+        st.meta["cursors"] = cur
         st.meta.setdefault("yielded", []).append(i)
         entry = VStruct("WalEntryRaw", [VInt(disk.vers[i], "u64"), VOpaque("bytes", ("rec", i))])
         return some(ok(entry))
@@ -99,6 +152,21 @@ def install_models(ex, disk):
 
 
 def ob_replay(ex, nrec, tail):
+    with scoped_models(ex):
+        return _ob_replay(ex, nrec, tail)
+
+
+def ob_prepare(ex):
+    with scoped_models(ex):
+        return _ob_prepare(ex)
+
+
+def ob_commit_checkpoint(ex, N):
+    with scoped_models(ex):
+        return _ob_commit_checkpoint(ex, N)
+
+
+def _ob_replay(ex, nrec, tail):
     """replay() yields exactly the records above the snapshot version, in order, and returns
     max(snapshot version, every version in the log)"""
     t0 = time.time()
@@ -164,7 +232,7 @@ def ob_replay(ex, nrec, tail):
                       ex.queries - q0, len(finals))
 
 
-def ob_prepare(ex):
+def _ob_prepare(ex):
     """replay_and_prepare: next = highest+1 (or 1), and the segment of `next` exists afterwards"""
     t0 = time.time()
     q0 = ex.queries
@@ -214,7 +282,7 @@ def ob_prepare(ex):
                       ex.queries - q0, len(finals))
 
 
-def ob_commit_checkpoint(ex, N):
+def _ob_commit_checkpoint(ex, N):
     """commit_checkpoint(version, last): every segment it removes holds only versions <= version
     (so every acknowledged version above the snapshot stays in the log)"""
     from obl_wal import wal_manager
@@ -256,3 +324,102 @@ def ob_commit_checkpoint(ex, N):
                                       "a pruned segment may hold a version above the checkpoint version", d, ex.queries - q0, len(finals))
     return Obligation(name, ["C02", "C20"], "discharged", time.time() - t0, f"{len(finals)} paths, {n} prune events checked", None,
                       ex.queries - q0, len(finals))
+
+
+# ---- C10: a damaged log is never silently accepted (record level) ---------------------------------------
+
+def ob_replay_damaged(ex, nrec, bad, kind):
+    with scoped_models(ex):
+        return _ob_replay_damaged(ex, nrec, bad, kind)
+
+
+def _ob_replay_damaged(ex, nrec, bad, kind):
+    """log of nrec records in any segment grouping; record `bad` is damaged:
+    kind='error'  : its reader reports an error (checksum mismatch / short payload / undecodable op)
+    kind='eof'    : the log is cut inside its header (reader reports end of segment there)
+    Obligation: replay returns Err, or Ok having applied EXACTLY the records before `bad` (and above
+    the snapshot) — never a record at or after the damage, never a hole."""
+    t0 = time.time()
+    q0 = ex.queries
+    st0 = State()
+    disk = LogDisk(ex, st0, nrec)
+    install_models(ex, disk)
+    M = ex.models
+    orig_next = M.table["SegmentReader as Iterator::next"]
+
+    def m_reader_next(ex2, st, fr, c, a, d, r):
+        rd = deref_all(st, a[0])
+        sid = disk.reader_sid(ex2, st, rd)
+        pos = st.meta["cursors"][str(sid)]
+        grp = None
+        for g in st.meta["groups"]:
+            if not ex2.feasible(st.pc, disk.segs[g[0]] != sid):
+                grp = g
+        if grp is not None and pos < len(grp) and grp[pos] == bad:
+            cur = dict(st.meta["cursors"])
+            cur[str(sid)] = pos + 1
+            st.meta["hit_damage"] = True
+            if kind == "eof":
+                # nothing after a cut can be read from this segment
+                cur[str(sid)] = 10 ** 6
+                st.meta["cursors"] = cur
+                return none()
+            st.meta["cursors"] = cur
+            e = VEnum("WalError", ex2.si.variant_index("WalError", "ReplayChecksumMismatch"),
+                      {ex2.si.variant_index("WalError", "ReplayChecksumMismatch"): [VInt(disk.vers[bad], "u64"), VInt(sid, "u64"), VOpaque("h"), VOpaque("h")]})
+            return some(err(e))
+        return orig_next(ex2, st, fr, c, a, d, r)
+    M.reg("SegmentReader as Iterator::next", m_reader_next)
+    fn = find_fn(ex, "::replay", "replay::<impl", p0="&WalReplayer")
+    finals = []
+    for st, groups in disk.groups(ex, st0):
+        if kind == "eof":
+            # a cut removes everything after it: only meaningful when `bad` is in the last segment
+            if bad not in groups[-1]:
+                continue
+            groups = [list(g) for g in groups]
+        st.meta["groups"] = groups
+        st.meta["tail"] = False
+        rep = VStruct("WalReplayer", [VRef(st.alloc(VStruct("SegmentStorage", [VOpaque("paths")]))),
+                                      sym_option(disk.c != 0, VInt(disk.c, "u64"))])
+        ex.start(st, fn, [VRef(st.alloc(rep)), VOpaque("collector")])
+        finals += ex.run(st)
+    name = f"replay of a log of {nrec} records whose record {bad} is damaged ({kind})"
+    terms = dict(snap_ver=disk.c, versions=disk.vers, segments=disk.segs)
+    n = 0
+    for f in finals:
+        if f.status in ("unsupported", "cut"):
+            return Obligation(name, ["C10"], "inconclusive", time.time() - t0, f"{f.status}: {f.note}", None, ex.queries - q0, len(finals))
+        if f.status != "returned":
+            r, m = ex.model_of(f.pc)
+            return Obligation(name, ["C10"], "violated", time.time() - t0, f"replay of a damaged log ends in {f.status}: {f.note}",
+                              model_values(m, terms) if m else None, ex.queries - q0, len(finals))
+        rv = f.retval
+        applied = f.meta.get("applied", [])
+        n += 1
+        if isinstance(rv, VEnum) and rv.concrete() == 0:
+            late = [i for i in applied if i >= bad]
+            if late:
+                r, m = ex.model_of(f.pc)
+                cex = model_values(m, terms) if m else {}
+                cex.update(applied=applied, damaged=bad, kind=kind, groups=str(f.meta.get("groups")))
+                return Obligation(name, ["C10"], "violated", time.time() - t0,
+                                  f"replay accepts a damaged log and applies record(s) {late} at/after the damage (hole in the history)",
+                                  cex, ex.queries - q0, len(finals))
+            # every record before the damage and above the snapshot must have been applied
+            for i in range(bad):
+                should = disk.vers[i] > disk.c
+                did = i in applied
+                post = should if did else z3.Not(should)
+                r, m = ex.model_of(f.pc, z3.Not(post))
+                if r == z3.sat:
+                    cex = model_values(m, terms)
+                    cex.update(applied=applied, damaged=bad, kind=kind)
+                    return Obligation(name, ["C10"], "violated", time.time() - t0, "accepted state is not the longest undamaged prefix",
+                                      cex, ex.queries - q0, len(finals))
+            if kind == "error" and f.meta.get("hit_damage"):
+                # baseline behaviour is to fail; accepting is only legitimate for the exact prefix (checked above)
+                pass
+    if not finals:
+        return Obligation(name, ["C10"], "inconclusive", time.time() - t0, "no feasible path", None, ex.queries - q0, 0)
+    return Obligation(name, ["C10"], "discharged", time.time() - t0, f"{len(finals)} paths", None, ex.queries - q0, len(finals))
